@@ -1455,8 +1455,11 @@ const char* rtosc_skip_next_printed_arg(const char* src, int* skipped,
             do
             {
                 lhssrc = old_src;
+                // ranges may not overlap: no "2x1 ... 3", no "[2x1 ...]"
+                // (the scanner has no value "b" to count from: behind
+                //  "nxa" it points after the repeated value)
                 if(is_range_multiplier(lhssrc))
-                    lhssrc = strchr(lhssrc, 'x') + 1;
+                    break;
 
                 rtosc_arg_val_t llhsarg, lhsarg, rhsarg;
                 char lhstype = deltaless_range_type ? deltaless_range_type
